@@ -10,6 +10,7 @@ import (
 	"github.com/postalsys/muti-metroo/internal/identity"
 	"github.com/postalsys/muti-metroo/internal/peer"
 	"github.com/postalsys/muti-metroo/internal/shell"
+	"github.com/postalsys/muti-metroo/internal/udp"
 )
 
 // Accessors for the verification harness (tunnel family: C04, C07). They add
@@ -102,3 +103,6 @@ func (a *Agent) VerifRelayCounts() (tcp, udp, icmp int) {
 	}
 	return count(a.tcpRelay), count(a.udpRelay), count(a.icmpRelay)
 }
+
+// VerifUDPHandler exposes the exit-side UDP handler (nil when UDP is disabled).
+func (a *Agent) VerifUDPHandler() *udp.Handler { return a.udpHandler }
